@@ -106,6 +106,24 @@ def gen_cases(tier, rng):
                     break
         if h:
             cases.append((rng.choice(heads), [bytes(b) for b in h], "walk"))
+    # (3b) TWO deviations: one in the RDH0 of the first header of the history (what the validator latches from the first RDH it sees --
+    #      header id, system id -- is latched whether or not that RDH passes), one anywhere in a later header; and the targeted pair
+    #      `first header faulty in any RDH0 field, a later header with another header id`
+    npair = 2500 if tier == "thorough" else 400
+    for k in range(npair):
+        n = rng.randrange(2, 7)
+        h = history(rng, n)
+        a = rng.randrange(64)
+        h[0][a // 8] ^= 1 << (a % 8)
+        pos = rng.randrange(1, n)
+        if k % 3 == 0:
+            h[pos][0] = rng.choice([3, 6, 7, 8, 100]) if h[pos][0] != 6 else 7       # another header id, nothing else
+            label = "pair:rdh0bit%d@0+version@%d" % (a, pos)
+        else:
+            b_ = rng.randrange(512)
+            h[pos][b_ // 8] ^= 1 << (b_ % 8)
+            label = "pair:rdh0bit%d@0+bit%d@%d" % (a, b_, pos)
+        cases.append((heads[k % 4], [bytes(x) for x in h], label))
     # (4) fully random headers
     for _ in range(2000 if tier == "thorough" else 200):
         n = rng.randrange(1, 5)
@@ -147,7 +165,7 @@ def run(tier, seed):
     nrdh = 0
     for (head, rdhs, label), line, li, lm, sp in zip(cases, lines, impl, model, spec):
         kind = label.split("@")[0].split("=")[0]
-        kind = "bit" if kind.startswith("bit") else kind
+        kind = "bit" if kind.startswith("bit") else ("pair" if kind.startswith("pair") else kind)
         dist[kind] = dist.get(kind, 0) + 1
         nrdh += len(rdhs)
         if li == "PANIC":
